@@ -473,6 +473,82 @@ func runC15(c *Ctx) error {
 		c.Count(fmt.Sprintf("kind:storm-g%d", g))
 		c.NonTrivial(fmt.Sprintf("storm/%d/%d/%d", g, per, x))
 	}
+
+	// ---------- (5) a further key exchange on a used session that FAILS ----------
+	// An established session has sealed frames; a peer's key-exchange value that the curve refuses
+	// (a low-order point: the length check of the public key passes, the exchange fails) arrives in
+	// a request (InitKeyServer) or in a reply (InitKeyClientComplete).  Whatever the session keeps
+	// afterwards, the frames it seals before and after must not share (key, class, sequence number).
+	lowOrder := [][]byte{
+		make([]byte, 32),
+		append([]byte{1}, make([]byte, 31)...),
+		{0xe0, 0xeb, 0x7a, 0x7c, 0x3b, 0x41, 0xb8, 0xae, 0x16, 0x56, 0xe3, 0xfa, 0xf1, 0x9f, 0xc4, 0x6a, 0xda, 0x09, 0x8d, 0xeb, 0x9c, 0x32, 0xb1, 0xfd, 0x86, 0x62, 0x05, 0x16, 0x5f, 0x49, 0xb8, 0x00},
+	}
+	for rep, n := 0, c.Pick(12, 60); rep < n; rep++ {
+		if err := keyExchange(sab.Encryption(), sba.Encryption()); err != nil {
+			return err
+		}
+		ea := sab.Encryption()
+		_, kxT, err := state.NewEncryptionSession().InitKeyClientStart() // the name of the key exchange in use
+		if err != nil {
+			return err
+		}
+		type sealedRec struct {
+			key  string
+			prio bool
+			seq  uint32
+			when string
+		}
+		var recs []sealedRec
+		sealSome := func(k int, when string) {
+			for j := 0; j < k; j++ {
+				mt := frame.NetworkTraffic
+				if c.Rng.IntN(4) == 0 {
+					mt = frame.SessionCtrl
+				}
+				_, outKey := ea.VerifKeys()
+				f, err := builder.NewFrameV1(a.id.IP, b.id.IP, mt, nil, []byte("before and after a failed key exchange"), nil)
+				if err != nil {
+					return
+				}
+				if err := f.Seal(sab); err == nil {
+					d, _ := f.FrameDataWithMargins(0, 0)
+					recs = append(recs, sealedRec{key: string(outKey), prio: frame.MessageType(d[4]).Class() == frame.MessageClassPriorityEncrypted, seq: be32(d[8:12]), when: when})
+				}
+				f.ReturnToPool()
+			}
+		}
+		sealSome(2+c.Rng.IntN(12), "before")
+		bad := lowOrder[c.Rng.IntN(len(lowOrder))]
+		role := "server"
+		var kxErr error
+		if rep%2 == 0 {
+			_, _, kxErr = ea.InitKeyServer(bad, kxT)
+		} else {
+			role = "client"
+			if _, _, err := ea.InitKeyClientStart(); err != nil {
+				return err
+			}
+			kxErr = ea.InitKeyClientComplete(bad, kxT)
+		}
+		sealSome(2+c.Rng.IntN(12), "after")
+		c.Eval()
+		c.Count("kind:failed-key-exchange-" + role)
+		if kxErr == nil {
+			c.Count("observation:low-order-key-exchange-accepted")
+		}
+		c.NonTrivial(fmt.Sprintf("failed-kx/%s/%v", role, kxErr != nil))
+		seen := map[string]string{}
+		for _, r := range recs {
+			id := fmt.Sprintf("%x/%v/%d", r.key, r.prio, r.seq)
+			if w, dup := seen[id]; dup && kxErr != nil {
+				c.Violate(fmt.Sprintf("sequence number %d (priority class: %v) was used twice under the same key: %s and %s a key exchange that failed (%s role: %v)", r.seq, r.prio, w, r.when, role, kxErr), "nonce-reuse-after-failed-kx",
+					map[string]any{"role": role, "seq": r.seq, "prio": r.prio})
+				break
+			}
+			seen[id] = r.when
+		}
+	}
 	return nil
 }
 
